@@ -1157,3 +1157,679 @@ Lemma flow_refuted :
   /\ P_flow witness_flow_F8 (Some (run_flow witness_flow_F8)) = false.
 Proof. vm_compute. repeat split. Qed.
 End Wit.
+
+(* ====================================================================================
+   Hooks with several bindings: combined arrays (hook cases)
+   ==================================================================================== *)
+
+
+(* ---- the bytewise order is a strict total order ---- *)
+
+Lemma bytes_ltb_cons x a y b :
+  bytes_ltb (x :: a) (y :: b) = true <-> (x < y)%N \/ (x = y /\ bytes_ltb a b = true).
+Proof.
+  cbn [bytes_ltb]. destruct (N.ltb_spec x y) as [Hlt|Hge].
+  - split; [intros _; left; exact Hlt | reflexivity].
+  - destruct (N.eqb_spec x y) as [E|NE].
+    + split; [intros H; right; split; assumption | intros [H|[_ H]]; [lia | exact H]].
+    + split; [discriminate | intros [H|[H _]]; [lia | contradiction]].
+Qed.
+
+Lemma bytes_ltb_trans a : forall b c,
+  bytes_ltb a b = true -> bytes_ltb b c = true -> bytes_ltb a c = true.
+Proof.
+  induction a as [|x a IH]; intros [|y b] [|z c] Hab Hbc; try discriminate; try reflexivity.
+  apply bytes_ltb_cons in Hab. apply bytes_ltb_cons in Hbc. apply bytes_ltb_cons.
+  destruct Hab as [Hab|[Exy Hab]], Hbc as [Hbc|[Eyz Hbc]].
+  - left; lia.
+  - left; lia.
+  - left; lia.
+  - right; split; [congruence | eapply IH; eassumption].
+Qed.
+
+Lemma bytes_ltb_total a : forall b, a = b \/ bytes_ltb a b = true \/ bytes_ltb b a = true.
+Proof.
+  induction a as [|x a IH]; intros [|y b].
+  - left; reflexivity.
+  - right; left; reflexivity.
+  - right; right; reflexivity.
+  - destruct (N.lt_trichotomy x y) as [H|[H|H]].
+    + right; left; apply bytes_ltb_cons; left; exact H.
+    + subst y. destruct (IH b) as [E|[L|G]].
+      * left; congruence.
+      * right; left; apply bytes_ltb_cons; right; split; [reflexivity | exact L].
+      * right; right; apply bytes_ltb_cons; right; split; [reflexivity | exact G].
+    + right; right; apply bytes_ltb_cons; left; exact H.
+Qed.
+
+(* ---- obj_set keeps a sorted object sorted; its shape depends on the keys only ---- *)
+
+Lemma In_obj_set k v m p : In p (obj_set k v m) -> p = (k, v) \/ In p m.
+Proof.
+  induction m as [|[k' v'] m IH]; simpl.
+  - intros [H|[]]. now left.
+  - destruct (bytes_eqb k k').
+    + intros [H|H]; [now left|right; now right].
+    + destruct (bytes_ltb k k').
+      * intros [H|H]; [now left|now right].
+      * intros [H|H]; [right; now left|]. destruct (IH H) as [H1|H1]; [now left|right; now right].
+Qed.
+
+Lemma obj_set_sorted k v m : sorted_strict m = true -> sorted_strict (obj_set k v m) = true.
+Proof.
+  induction m as [|[k' v'] m IH]; intros Hs; [reflexivity|].
+  simpl in Hs. apply andb_true_iff in Hs as [Hk Hm]. simpl.
+  destruct (bytes_eqb k k') eqn:E.
+  - apply bytes_eqb_eq in E; subst k'. simpl. now rewrite Hk, Hm.
+  - destruct (bytes_ltb k k') eqn:L.
+    + simpl. rewrite L, Hk, Hm. simpl. rewrite andb_true_r.
+      rewrite forallb_forall in Hk. apply forallb_forall. intros p Hp.
+      apply (bytes_ltb_trans _ _ _ L). now apply Hk.
+    + simpl. rewrite (IH Hm), andb_true_r.
+      assert (G : bytes_ltb k' k = true).
+      { destruct (bytes_ltb_total k k') as [H|[H|H]]; [|congruence|exact H].
+        subst k'. now rewrite bytes_eqb_refl in E. }
+      rewrite forallb_forall in Hk. apply forallb_forall. intros p Hp.
+      apply In_obj_set in Hp as [->|Hp]; [exact G|now apply Hk].
+Qed.
+
+Definition relabel (g : bytes -> json) (m : list (bytes * json)) : list (bytes * json) :=
+  map (fun kv => (fst kv, g (fst kv))) m.
+
+Lemma relabel_obj_set g k v m : relabel g (obj_set k v m) = obj_set k (g k) (relabel g m).
+Proof.
+  induction m as [|[k' v'] m IH]; simpl; [reflexivity|].
+  destruct (bytes_eqb k k'); [reflexivity|].
+  destruct (bytes_ltb k k'); [reflexivity|]. simpl. now rewrite IH.
+Qed.
+
+Lemma fold_obj_set_relabel g l : forall acc,
+  fold_left (fun a n => obj_set n (g n) a) l (relabel g acc)
+  = relabel g (fold_left (fun a n => obj_set n JNull a) l acc).
+Proof.
+  induction l as [|n l IH]; intros acc; simpl; [reflexivity|].
+  rewrite <- IH. now rewrite relabel_obj_set.
+Qed.
+
+Lemma canon_fold_sorted l : forall acc,
+  sorted_strict acc = true -> sorted_strict (fold_left (fun a n => obj_set n JNull a) l acc) = true.
+Proof.
+  induction l as [|n l IH]; intros acc H; simpl; [exact H|]. apply IH. now apply obj_set_sorted.
+Qed.
+
+Lemma canon_names_sorted_any A (f : bytes -> A) l :
+  sorted_strict (map (fun n => (n, f n)) (canon_names l)) = true.
+Proof.
+  unfold canon_names.
+  rewrite (sorted_strict_keys _ _ (map (fun n => (n, f n)) (map fst (fold_left (fun a n => obj_set n JNull a) l [])))
+                              (fold_left (fun a n => obj_set n JNull a) l [])).
+  - now apply canon_fold_sorted.
+  - rewrite !map_map. simpl. reflexivity.
+Qed.
+
+(* the rendered `snapshots` object depends on the included names only as a set *)
+Lemma snapshots_json_canon (f : bytes -> list item) l :
+  snapshots_json (map (fun n => (n, f n)) l) = snapshots_json (map (fun n => (n, f n)) (canon_names l)).
+Proof.
+  rewrite (snapshots_json_sorted _ (canon_names_sorted_any _ f l)).
+  unfold snapshots_json. f_equal.
+  set (G := fun n => JArr (map render_item (f n))).
+  assert (E : forall acc, fold_left (fun acc p => obj_set (fst p) (JArr (map render_item (snd p))) acc)
+                                    (map (fun n => (n, f n)) l) acc
+                          = fold_left (fun a n => obj_set n (G n) a) l acc).
+  { induction l as [|n l IH]; intros acc; simpl; [reflexivity|apply IH]. }
+  rewrite E. change (@nil (bytes * json)) with (relabel G []) at 1.
+  rewrite fold_obj_set_relabel. unfold relabel, canon_names. rewrite !map_map. reflexivity.
+Qed.
+
+
+(* ---- UpdateSnapshots: the per-call cache is not observable ---- *)
+
+Definition update_pure (inc : btype -> bytes -> list bytes) (sf : bytes -> option (list entry)) (x : ctx) : ctx :=
+  set_fresh x (if is_sync x then entries_items (sf (c_binding x)) else c_objects x)
+            (map (fun n => (n, entries_items (sf n))) (inc (c_btype x) (c_binding x))).
+
+Definition sc_ok (sf : bytes -> option (list entry)) (sc : scache) : Prop :=
+  forall n v, aget n sc = Some v -> v = sf n.
+
+Lemma cached_for_ok sf sc n :
+  sc_ok sf sc -> snd (cached_for sf sc n) = sf n /\ sc_ok sf (fst (cached_for sf sc n)).
+Proof.
+  intros Hok. unfold cached_for. destruct (aget n sc) as [v|] eqn:E; simpl.
+  - split; [now apply Hok|exact Hok].
+  - split; [reflexivity|]. intros n' v' H.
+    destruct (bytes_eqb n' n) eqn:En.
+    + apply bytes_eqb_eq in En; subst n'. rewrite aget_aset_same in H. now inversion H.
+    + rewrite aget_aset_other in H by exact En. now apply Hok.
+Qed.
+
+Lemma fill_snapshots_ok sf names : forall sc,
+  sc_ok sf sc ->
+  snd (fill_snapshots sf sc names) = map (fun n => (n, entries_items (sf n))) names
+  /\ sc_ok sf (fst (fill_snapshots sf sc names)).
+Proof.
+  induction names as [|n r IH]; intros sc Hok; simpl; [split; [reflexivity|exact Hok]|].
+  destruct (cached_for_ok sf sc n Hok) as [Hv Hsc].
+  destruct (cached_for sf sc n) as [sc1 v]. simpl in Hv, Hsc. subst v.
+  destruct (IH sc1 Hsc) as [Hs Hsc2].
+  destruct (fill_snapshots sf sc1 r) as [sc2 rest]. simpl in *. subst rest. now split.
+Qed.
+
+Lemma update_ctx_ok inc sf sc x :
+  sc_ok sf sc ->
+  snd (update_ctx inc sf sc x) = update_pure inc sf x /\ sc_ok sf (fst (update_ctx inc sf sc x)).
+Proof.
+  intros Hok. unfold update_ctx, update_pure.
+  destruct (fill_snapshots_ok sf (inc (c_btype x) (c_binding x)) sc Hok) as [Hs Hsc].
+  destruct (fill_snapshots sf sc (inc (c_btype x) (c_binding x))) as [sc1 snaps]. simpl in Hs, Hsc. subst snaps.
+  destruct (is_sync x).
+  - destruct (cached_for_ok sf sc1 (c_binding x) Hsc) as [Hv Hsc2].
+    destruct (cached_for sf sc1 (c_binding x)) as [sc2 v]. simpl in *. subst v. now split.
+  - simpl. now split.
+Qed.
+
+Lemma update_all_pure inc sf xs : forall sc,
+  sc_ok sf sc -> update_all inc sf sc xs = map (update_pure inc sf) xs.
+Proof.
+  induction xs as [|x r IH]; intros sc Hok; simpl; [reflexivity|].
+  destruct (update_ctx_ok inc sf sc x Hok) as [Hx Hsc].
+  destruct (update_ctx inc sf sc x) as [sc' x']. simpl in *. subst x'. now rewrite (IH sc' Hsc).
+Qed.
+
+Lemma sc_ok_nil sf : sc_ok sf [].
+Proof. intros n v H. discriminate H. Qed.
+
+(* ---- small list facts ---- *)
+
+Lemma forall2b_map A B C (f : B -> C -> bool) (g : A -> B) (h : A -> C) l :
+  forall2b f (map g l) (map h l) = forallb (fun x => f (g x) (h x)) l.
+Proof. induction l as [|x l IH]; simpl; [reflexivity|now rewrite IH]. Qed.
+
+Lemma find_in_some A (f : A -> bool) l x : In x l -> f x = true -> exists y, find f l = Some y.
+Proof.
+  induction l as [|z l IH]; intros Hin Hf; [destruct Hin|]. simpl.
+  destruct (f z) eqn:E; [now exists z|].
+  destruct Hin as [->|Hin]; [congruence|now apply IH].
+Qed.
+
+Lemma render_list_v1 cs : render_list V1 cs = Some (JArr (map (fun c => JObj (map_v1 c)) cs)).
+Proof.
+  unfold render_list.
+  assert (E : render_all V1 cs = Some (map (fun c => JObj (map_v1 c)) cs)).
+  { induction cs as [|c cs IH]; simpl; [reflexivity|now rewrite IH]. }
+  now rewrite E.
+Qed.
+
+(* rendering sees the snapshots only through the rendered `snapshots` object, and the
+   objects only through their ObjectAndFilterResult *)
+Lemma map_v1_ext bt jq incl ia grp bnd kt wev objs s1 s2 ar cr fr to :
+  snapshots_json s1 = snapshots_json s2 ->
+  map_v1 (mkCtx bt jq incl ia grp bnd kt wev (map norm_item objs) s1 ar cr fr to)
+  = map_v1 (mkCtx bt jq incl ia grp bnd kt wev objs s2 ar cr fr to).
+Proof.
+  intros H. unfold map_v1, includes.
+  cbn [c_btype c_jq c_incl c_incl_all c_group c_binding c_type c_wev c_objects c_snapshots c_areview c_creview c_from c_to].
+  rewrite H, render_items_norm. destruct objs as [|i r]; reflexivity.
+Qed.
+
+Lemma canon_names_nil_inv l : canon_names l = [] -> l = [].
+Proof.
+  destruct l as [|n l]; [reflexivity|]. unfold canon_names. simpl. intros H.
+  assert (G : forall l acc, acc <> [] -> fold_left (fun a n => obj_set n JNull a) l acc <> []).
+  { clear. induction l as [|n l IH]; intros acc Ha; simpl; [exact Ha|]. apply IH.
+    destruct acc as [|[k v] acc]; simpl; [discriminate|].
+    destruct (bytes_eqb n k); [discriminate|]. destruct (bytes_ltb n k); discriminate. }
+  exfalso. apply (G l [(n, JNull)]); [discriminate|].
+  destruct (fold_left (fun a n => obj_set n JNull a) l [(n, JNull)]); [reflexivity|discriminate H].
+Qed.
+
+
+Local Arguments json_eqb : simpl never.
+Local Arguments snapshots_json : simpl never.
+Local Arguments render_item : simpl never.
+Local Arguments render_list : simpl never.
+Local Arguments canon_names : simpl never.
+
+(* ---- well-formedness of a hook case ---- *)
+
+Definition obind_kind_ok (o : obind) : bool :=
+  match ob_type o with BSchedule | BValidating | BMutating | BConversion => true | _ => false end.
+
+Definition hook_wf (hc : hcase) : bool :=
+  (* the other bindings are schedule / validating / mutating / conversion bindings *)
+  forallb obind_kind_ok (hk_other hc)
+  (* config.CheckIncludeSnapshots: an included name is the name of a kubernetes binding *)
+  && forallb (fun o => forallb (fun n => is_some (kube_named n (hk_kube hc))) (ob_incl o)) (hk_other hc)
+  (* jq answers are printed canonically *)
+  && forallb (fun p => forallb (wobj_wf (fst p)) (snd p)) (hk_kube hc)
+  && forallb (fun ev => match ev with
+                        | HWatch n _ w => match kube_named n (hk_kube hc) with
+                                          | Some (b, _) => wobj_wf b w
+                                          | None => true
+                                          end
+                        | _ => true
+                        end) (hk_evs hc).
+
+Lemma kube_named_in A n (l : list (binding * A)) b x :
+  kube_named n l = Some (b, x) -> In (b, x) l /\ b_name b = n.
+Proof.
+  unfold kube_named. intros H. apply find_some in H as [H1 H2]. simpl in H2.
+  apply bytes_eqb_eq in H2. now split.
+Qed.
+
+Lemma hook_objs_good hc n b ws :
+  hook_wf hc = true -> T_hook hc = false -> kube_named n (hk_kube hc) = Some (b, ws) ->
+  Forall (wobj_good b V1) ws
+  /\ Forall (fun op => wobj_good b V1 (snd op)) (watch_ops n (hk_evs hc)).
+Proof.
+  unfold hook_wf, T_hook. intros Hwf Ht Hn.
+  apply andb_true_iff in Hwf as [Hwf Hevs]. apply andb_true_iff in Hwf as [_ Hini].
+  apply orb_false_iff in Ht as [Tini Tevs].
+  destruct (kube_named_in _ _ _ _ _ Hn) as [Hin _].
+  rewrite forallb_forall in Hini, Hevs.
+  split; apply Forall_forall.
+  - intros w Hw. split.
+    + specialize (Hini _ Hin). simpl in Hini. rewrite forallb_forall in Hini. now apply Hini.
+    + intros _. destruct (wobj_trigger b w) eqn:E; [|reflexivity].
+      assert (X : existsb (fun p => existsb (wobj_trigger (fst p)) (snd p)) (hk_kube hc) = true).
+      { apply existsb_exists. exists (b, ws). split; [exact Hin|]. simpl. apply existsb_exists. eauto. }
+      congruence.
+  - intros [t w] Hop. unfold watch_ops in Hop. apply in_flat_map in Hop as [ev [Hev Hop]].
+    destruct ev as [n0|n0 t0 w0|k r f t']; try (destruct Hop).
+    destruct (bytes_eqb n0 n) eqn:En; [|destruct Hop].
+    apply bytes_eqb_eq in En; subst n0. destruct Hop as [Hop|[]]. inversion Hop; subst t0 w0. simpl.
+    split.
+    + specialize (Hevs _ Hev). simpl in Hevs. now rewrite Hn in Hevs.
+    + intros _. destruct (wobj_trigger b w) eqn:E; [|reflexivity].
+      assert (X : existsb (fun ev => match ev with
+                        | HWatch n _ w => match kube_named n (hk_kube hc) with
+                                          | Some (b, _) => wobj_trigger b w
+                                          | None => false
+                                          end
+                        | _ => false
+                        end) (hk_evs hc) = true).
+      { apply existsb_exists. exists (HWatch n t w). split; [exact Hev|]. now rewrite Hn. }
+      congruence.
+Qed.
+
+Lemma inv_fold b v ops : forall a,
+  inv b v a -> Forall (fun op => wobj_good b v (snd op)) ops -> inv b v (fold_left alive_step ops a).
+Proof.
+  induction ops as [|[t w] ops IH]; intros a Ha Hops; simpl; [exact Ha|].
+  inversion Hops as [|? ? Hw Hr]; subst. apply IH; [|exact Hr]. now apply inv_step.
+Qed.
+
+(* the snapshot of a kubernetes binding when the hook runs, element by element *)
+Lemma hook_snapshot_resolved hc n b ws0 :
+  hook_wf hc = true -> T_hook hc = false -> kube_named n (hk_kube hc) = Some (b, ws0) ->
+  let v := hk_snapshots_for hc (hk_evs hc) n in
+  exists objs, resolve (hk_alive hc n) (entries_ids v) = Some objs
+               /\ entries_items v = map norm_item (map (spec_item b) objs)
+               /\ Forall (wobj_good b V1) objs.
+Proof.
+  intros Hwf Ht Hn. destruct (hook_objs_good hc n b ws0 Hwf Ht Hn) as [Hini Hops].
+  unfold hk_snapshots_for, hk_alive. rewrite Hn. unfold run_cache. rewrite cache_after.
+  set (a := fold_left alive_step (watch_ops n (hk_evs hc)) (alive_init ws0)).
+  assert (Hinv : inv b V1 a) by (apply inv_fold; [now apply inv_init|exact Hops]).
+  destruct Hinv as [Hc [Hk Ho]].
+  destruct (resolve_entries b a _ Hc Hk (snapshot_entries b a Hk)) as [objs [Hr [Hin Hm]]].
+  exists objs. simpl. split; [exact Hr|]. split; [exact Hm|].
+  apply (in_all_ok b V1 a objs Ho Hin).
+Qed.
+
+Lemma hook_snaps_resolved hc names :
+  hook_wf hc = true -> T_hook hc = false ->
+  let sf := hk_snapshots_for hc (hk_evs hc) in
+  exists S, hk_resolve_snaps hc (map (fun n => (n, entries_ids (sf n))) names) = Some S
+    /\ map fst S = names
+    /\ map (fun n => (n, entries_items (sf n))) names = map (fun p => (fst p, map norm_item (snd p))) S
+    /\ forallb (fun p => forallb (wf_item None) (snd p)) S = true
+    /\ existsb (fun p => existsb item_trigger (snd p)) S = false.
+Proof.
+  intros Hwf Ht sf. induction names as [|n names [S [Hr [Hn [Hm [Hw Htr]]]]]].
+  - exists []. repeat split; reflexivity.
+  - assert (Hone : exists its, hk_resolve_items hc n (entries_ids (sf n)) = Some its
+                               /\ entries_items (sf n) = map norm_item its
+                               /\ forallb (wf_item None) its = true
+                               /\ existsb item_trigger its = false).
+    { unfold hk_resolve_items. destruct (kube_named n (hk_kube hc)) as [[b ws0]|] eqn:Hk.
+      - destruct (hook_snapshot_resolved hc n b ws0 Hwf Ht Hk) as [objs [H1 [H2 H3]]].
+        fold sf in H1, H2. rewrite H1. exists (map (spec_item b) objs).
+        destruct (items_wf b V1 objs None H3 (or_introl eq_refl)) as [G1 G2].
+        repeat split; [exact H2|exact G1|now apply G2].
+      - unfold sf, hk_snapshots_for. rewrite Hk. simpl. exists []. repeat split; reflexivity. }
+    destruct Hone as [its [H1 [H2 [H3 H4]]]].
+    exists ((n, its) :: S). cbn [map hk_resolve_snaps fst snd forallb existsb].
+    rewrite H1, Hr, Hn, H2, Hm, H3, Hw, H4, Htr. repeat split; reflexivity.
+Qed.
+
+Lemma fresh_snapshots_json (g : bytes -> list item) L L' S :
+  canon_names L' = canon_names L ->
+  map (fun n => (n, g n)) (canon_names L) = map (fun p => (fst p, map norm_item (snd p))) S ->
+  snapshots_json (map (fun n => (n, g n)) L') = snapshots_json S.
+Proof.
+  intros Hc Hm. rewrite snapshots_json_canon, Hc, Hm. apply snapshots_json_norm.
+Qed.
+
+Lemma sorted_by_canon A (S : list (bytes * A)) L : map fst S = canon_names L -> sorted_strict S = true.
+Proof.
+  intros H. rewrite (sorted_strict_keys _ _ S (map (fun n => (n, tt)) (canon_names L))).
+  - apply canon_names_sorted_any.
+  - rewrite H, map_map. simpl. now rewrite map_id.
+Qed.
+
+(* what has to be shown of one item *)
+Lemma P_hook_item_intro hc i ev ids snapids S c j :
+  nth_error (hk_evs hc) i = Some ev ->
+  hk_resolve_snaps hc snapids = Some S ->
+  hk_expected hc ev ids S = Some c ->
+  map fst snapids = canon_names (c_incl c) ->
+  wf1 c = true -> ctx_trigger c = false -> j = JObj (map_v1 c) ->
+  P_hook_item hc (mkHitem (N.of_nat i) ids snapids) j = true.
+Proof.
+  intros Hev Hs Hc Hn Hwf Ht ->. unfold P_hook_item. cbn [hi_ev hi_ids hi_snaps].
+  rewrite Nat2N.id, Hev, Hs, Hc, Hn, Hwf, list_eqb_refl by apply bytes_eqb_refl.
+  simpl. now apply P_item_v1_rendered.
+Qed.
+
+
+Local Arguments json_eqb : simpl never.
+Local Arguments snapshots_json : simpl never.
+Local Arguments render_item : simpl never.
+Local Arguments render_list : simpl never.
+Local Arguments canon_names : simpl never.
+Local Arguments map_v1 : simpl never.
+
+
+(* UpdateSnapshots as a function of one context *)
+Definition U (hc : hcase) (x : ctx) : ctx :=
+  if is_nil (hk_kube hc) then x
+  else update_pure (hk_include_from hc) (hk_snapshots_for hc (hk_evs hc)) x.
+
+Lemma hk_update_map hc xs : hk_update_snapshots hc xs = map (U hc) xs.
+Proof.
+  unfold hk_update_snapshots, U. destruct (is_nil (hk_kube hc)).
+  - now rewrite map_id.
+  - apply update_all_pure, sc_ok_nil.
+Qed.
+
+Lemma hk_collect_in hc evs : forall pre i q,
+  In (i, q) (hk_collect hc pre evs) ->
+  exists mid ev r, evs = mid ++ ev :: r /\ i = length (pre ++ mid) /\ In q (hk_contexts hc (pre ++ mid) ev).
+Proof.
+  induction evs as [|ev evs IH]; intros pre i q Hin; [destruct Hin|].
+  cbn [hk_collect] in Hin. apply in_app_or in Hin as [Hin|Hin].
+  - apply in_map_iff in Hin as [p [Hp Hin]]. inversion Hp; subst.
+    exists [], ev, evs. rewrite app_nil_r. repeat split. exact Hin.
+  - destruct (IH _ _ _ Hin) as [mid [ev' [r [He [Hi Hq]]]]].
+    exists (ev :: mid), ev', r. rewrite <- app_assoc in Hi, Hq. simpl in Hi, Hq.
+    subst evs. repeat split; assumption.
+Qed.
+
+Lemma kube_named_not_nil A n (l : list (binding * A)) p : kube_named n l = Some p -> is_nil l = false.
+Proof. destruct l; [discriminate|reflexivity]. Qed.
+
+Lemma btype_eqb_refl t : btype_eqb t t = true.
+Proof. destruct t; reflexivity. Qed.
+
+Lemma btype_eqb_eq a b : btype_eqb a b = true -> a = b.
+Proof. destruct a, b; simpl; intros H; try discriminate H; reflexivity. Qed.
+
+Lemma obind_eqb_eq a b : obind_eqb a b = true -> a = b.
+Proof.
+  destruct a as [t1 n1 i1 g1], b as [t2 n2 i2 g2]. unfold obind_eqb. simpl. intros H.
+  apply andb_true_iff in H as [H Hg]. apply andb_true_iff in H as [H Hi]. apply andb_true_iff in H as [Ht Hn].
+  apply btype_eqb_eq in Ht. apply bytes_eqb_eq in Hn. apply bytes_eqb_eq in Hg.
+  apply (list_eqb_eq bytes_eqb bytes_eqb_eq) in Hi. now subst.
+Qed.
+
+Lemma include_from_other hc o :
+  obind_kind_ok o = true ->
+  hk_include_from hc (ob_type o) (ob_name o)
+  = match find (okey_eqb o) (hk_other hc) with Some o' => ob_incl o' | None => [] end.
+Proof.
+  destruct o as [ty nm inc grp]. unfold obind_kind_ok, hk_include_from. simpl.
+  destruct ty; try discriminate; reflexivity.
+Qed.
+
+(* a kubernetes context: wf1 and the trigger *)
+Lemma kube_ctx_ok b kt wev objs S L :
+  map fst S = canon_names L ->
+  forallb (fun p => forallb (wf_item None) (snd p)) S = true ->
+  existsb (fun p => existsb item_trigger (snd p)) S = false ->
+  Forall (wobj_good b V1) objs ->
+  (kt = KSync /\ wev = WNone \/ kt = KEvent /\ wev <> WNone /\ exists w, objs = [w]) ->
+  let c := mkCtx BKube (b_jq b) (b_incl b) false (b_group b) (b_name b) kt wev (map (spec_item b) objs) S
+                 None None [] [] in
+  wf1 c = true /\ ctx_trigger c = false.
+Proof.
+  intros Hn Hw Ht Hobjs Hkind c.
+  destruct (items_wf b V1 objs (Some (b_jq b)) Hobjs (or_intror eq_refl)) as [Ho1 Ho2].
+  split.
+  - unfold wf1, wf_snapshots, c, grouped; proj. rewrite (sorted_by_canon _ S L Hn), Hw. simpl.
+    destruct (negb (is_nil (b_group b))); [reflexivity|].
+    destruct Hkind as [[-> ->]|[-> [Hwev [w ->]]]].
+    + exact Ho1.
+    + simpl in Ho1. rewrite andb_true_r in Ho1. simpl. destruct wev; [congruence| | |]; exact Ho1.
+  - unfold ctx_trigger, c; proj. now rewrite (Ho2 eq_refl), Ht.
+Qed.
+
+Lemma hook_item_ok hc pre ev r q :
+  hook_wf hc = true -> T_hook hc = false -> T_same_type_name hc = false ->
+  T_admission_same_name hc = false ->
+  hk_evs hc = pre ++ ev :: r -> In q (hk_contexts hc pre ev) ->
+  P_hook_item hc (hk_item hc (length pre, q)) (JObj (map_v1 (U hc (snd q)))) = true.
+Proof.
+  intros Hwf Ht Hts Hta Hevs Hin.
+  assert (Hnth : nth_error (hk_evs hc) (length pre) = Some ev).
+  { rewrite Hevs, nth_error_app2, Nat.sub_diag by lia. reflexivity. }
+  set (sf := hk_snapshots_for hc (hk_evs hc)).
+  destruct ev as [name|name t w|k review from to]; cbn [hk_contexts] in Hin.
+  - (* Synchronization *)
+    destruct (kube_named name (hk_kube hc)) as [[b ws0]|] eqn:Hn; [|destruct Hin].
+    destruct (kube_named_in _ _ _ _ _ Hn) as [_ Hname]. subst name.
+    pose proof (kube_named_not_nil _ _ _ _ Hn) as Hnil.
+    simpl in Hin. destruct Hin as [<-|[]].
+    destruct (hook_snapshot_resolved hc (b_name b) b ws0 Hwf Ht Hn) as [objs [Hres [Hitems Hgood]]].
+    fold sf in Hres, Hitems.
+    destruct (hook_snaps_resolved hc (canon_names (b_incl b)) Hwf Ht) as [S [Hr [Hns [Hm [Hw Htr]]]]].
+    fold sf in Hr, Hm.
+    destruct (kube_ctx_ok b KSync WNone objs S (b_incl b) Hns Hw Htr Hgood) as [Hwf1 Htrig];
+      [left; now split|].
+    unfold hk_item, is_sync. cbn [fst snd]. proj. rewrite Hnil. cbn [negb andb].
+    unfold hk_include_from. rewrite Hn. cbn [fst].
+    fold sf.
+    eapply (P_hook_item_intro hc (length pre) (HSync (b_name b)) _ _ S); try eassumption.
+    + unfold hk_expected. rewrite Hn, Hres. reflexivity.
+    + proj. rewrite map_map. simpl. now rewrite map_id.
+    + f_equal. unfold U. rewrite Hnil. unfold update_pure, set_fresh, is_sync. proj.
+      unfold hk_include_from. rewrite Hn. cbn [fst]. fold sf. rewrite Hitems.
+      apply map_v1_ext. apply (fresh_snapshots_json _ (b_incl b)); [reflexivity|exact Hm].
+  - (* a watch event *)
+    destruct (kube_named name (hk_kube hc)) as [[b ws0]|] eqn:Hn; [|destruct Hin].
+    destruct (kube_named_in _ _ _ _ _ Hn) as [_ Hname]. subst name.
+    pose proof (kube_named_not_nil _ _ _ _ Hn) as Hnil.
+    destruct (handle b (run_cache b ws0 (watch_ops (b_name b) pre)) t w) as [c' [kev|]] eqn:Hh;
+      cbn [snd] in Hin; [|destruct Hin].
+    destruct (handle_event _ _ _ _ _ _ Hh) as [Htn ->].
+    simpl in Hin. destruct Hin as [<-|[]].
+    assert (Hgood : wobj_good b V1 w).
+    { destruct (hook_objs_good hc (b_name b) b ws0 Hwf Ht Hn) as [_ Hops].
+      rewrite Forall_forall in Hops. apply (Hops (t, w)).
+      unfold watch_ops. apply in_flat_map. exists (HWatch (b_name b) t w). split.
+      - rewrite Hevs. apply in_or_app. right. now left.
+      - rewrite bytes_eqb_refl. now left. }
+    destruct (hook_snaps_resolved hc (canon_names (b_incl b)) Hwf Ht) as [S [Hr [Hns [Hm [Hw Htr]]]]].
+    fold sf in Hr, Hm.
+    destruct (kube_ctx_ok b KEvent t [w] S (b_incl b) Hns Hw Htr) as [Hwf1 Htrig];
+      [constructor; [exact Hgood|constructor] | right; split; [reflexivity|split; [exact Htn|now exists w]] |].
+    unfold hk_item, is_sync. cbn [fst snd]. proj. cbn [andb].
+    rewrite Hnil. unfold hk_include_from. rewrite Hn. cbn [fst]. fold sf.
+    eapply (P_hook_item_intro hc (length pre) (HWatch (b_name b) t w) _ _ S); try eassumption.
+    + unfold hk_expected. rewrite Hn. rewrite list_eqb_refl by apply bytes_eqb_refl. reflexivity.
+    + proj. rewrite map_map. simpl. now rewrite map_id.
+    + f_equal. unfold U. rewrite Hnil. unfold update_pure, set_fresh, is_sync. proj.
+      unfold hk_include_from. rewrite Hn. cbn [fst]. fold sf.
+      replace [Raw (apply_filter (jqf_of b w) (b_keep b) (w_obj w))] with (map norm_item [spec_item b w]).
+      * apply map_v1_ext. apply (fresh_snapshots_json _ (b_incl b)); [reflexivity|exact Hm].
+      * simpl. unfold norm_item. now rewrite spec_item_ofr, entry_of_ofr.
+  - (* a schedule / validating / mutating / conversion binding *)
+    destruct (nth_error (hk_other hc) k) as [o|] eqn:Hk; [|destruct Hin].
+    assert (Hlink : (if is_adm (ob_type o) then adm_link hc o else o) = o).
+    { destruct (is_adm (ob_type o)) eqn:Ha; [|reflexivity].
+      destruct (obind_eqb (adm_link hc o) o) eqn:E; [now apply obind_eqb_eq in E|].
+      exfalso. unfold T_admission_same_name in Hta. rewrite <- Bool.not_true_iff_false in Hta. apply Hta.
+      apply existsb_exists. exists (HOther k review from to). split.
+      - rewrite Hevs. apply in_or_app. right. now left.
+      - now rewrite Hk, Ha, E. }
+    rewrite Hlink in Hin.
+    destruct Hin as [<-|[]].
+    pose proof (nth_error_In _ _ Hk) as Hino.
+    assert (Hkind : obind_kind_ok o = true /\ forallb (fun n => is_some (kube_named n (hk_kube hc))) (ob_incl o) = true).
+    { unfold hook_wf in Hwf. apply andb_true_iff in Hwf as [Hwf _]. apply andb_true_iff in Hwf as [Hwf _].
+      apply andb_true_iff in Hwf as [H1 H2]. rewrite forallb_forall in H1, H2. split; auto. }
+    destruct Hkind as [Hkind Hknown].
+    destruct (find_in_some _ (okey_eqb o) _ o Hino) as [o' Hfind].
+    { unfold okey_eqb. now rewrite btype_eqb_refl, bytes_eqb_refl. }
+    assert (Hcanon : canon_names (ob_incl o') = canon_names (ob_incl o)).
+    { unfold T_same_type_name in Hts.
+      destruct (list_eqb bytes_eqb (canon_names (ob_incl o')) (canon_names (ob_incl o))) eqn:E.
+      - now apply (list_eqb_eq bytes_eqb bytes_eqb_eq) in E.
+      - exfalso. rewrite <- Bool.not_true_iff_false in Hts. apply Hts. apply existsb_exists.
+        exists (HOther k review from to). split.
+        + rewrite Hevs. apply in_or_app. right. now left.
+        + now rewrite Hk, Hfind, E. }
+    pose proof (include_from_other hc o Hkind) as Hinc. rewrite Hfind in Hinc.
+    destruct (is_nil (hk_kube hc)) eqn:Hnil.
+    + (* no kubernetes controller: the context is handed over as it is *)
+      assert (Hno : ob_incl o = []).
+      { destruct (hk_kube hc); [|discriminate Hnil]. destruct (ob_incl o); [reflexivity|discriminate Hknown]. }
+      unfold hk_item. cbn [fst snd]. rewrite Hnil, andb_false_r.
+      eapply (P_hook_item_intro hc (length pre) (HOther k review from to) _ _ [] (ctx_of_obind o review from to)); try eassumption.
+      * reflexivity.
+      * unfold hk_expected. rewrite Hk.
+        destruct o as [ty nm inc grp]; unfold obind_kind_ok in Hkind; simpl in Hkind, Hno |- *; subst inc;
+          destruct ty; try discriminate Hkind; reflexivity.
+      * destruct o as [ty nm inc grp]; simpl in Hno; subst inc; destruct ty; reflexivity.
+      * destruct o as [ty nm inc grp]; unfold obind_kind_ok in Hkind; simpl in Hkind;
+          destruct ty; try discriminate Hkind; reflexivity.
+      * destruct o as [ty nm inc grp]; destruct ty; reflexivity.
+      * f_equal. unfold U. rewrite Hnil.
+        destruct o as [ty nm inc grp]; simpl in Hno; subst inc; unfold obind_kind_ok in Hkind; simpl in Hkind;
+          destruct ty; try discriminate Hkind; reflexivity.
+    + destruct (hook_snaps_resolved hc (canon_names (ob_incl o)) Hwf Ht) as [S [Hr [Hns [Hm [Hw Htr]]]]].
+      fold sf in Hr, Hm.
+      assert (Hsync : is_sync (ctx_of_obind o review from to) = false).
+      { unfold is_sync, ctx_of_obind; proj. destruct (ob_type o); reflexivity. }
+      unfold hk_item. cbn [fst snd]. rewrite Hnil, Hsync. cbn [andb negb].
+      replace (c_btype (ctx_of_obind o review from to)) with (ob_type o) by reflexivity.
+      replace (c_binding (ctx_of_obind o review from to)) with (ob_name o) by reflexivity.
+      rewrite Hinc, Hcanon. fold sf.
+      eapply (P_hook_item_intro hc (length pre) (HOther k review from to) _ _ S
+                                (set_fresh (ctx_of_obind o review from to) [] S)); try eassumption.
+      * unfold hk_expected. rewrite Hk.
+        destruct o as [ty nm inc grp]; unfold obind_kind_ok in Hkind; simpl in Hkind |- *;
+          destruct ty; try discriminate Hkind; reflexivity.
+      * unfold set_fresh, ctx_of_obind; proj. rewrite map_map. simpl. now rewrite map_id.
+      * unfold wf1, wf_snapshots, set_fresh, ctx_of_obind; proj.
+        rewrite (sorted_by_canon _ S (ob_incl o) Hns), Hw. simpl.
+        destruct o as [ty nm inc grp]; unfold obind_kind_ok in Hkind; simpl in Hkind |- *;
+          destruct ty; try discriminate Hkind; reflexivity.
+      * f_equal. unfold U. rewrite Hnil. unfold update_pure. rewrite Hsync.
+        replace (c_btype (ctx_of_obind o review from to)) with (ob_type o) by reflexivity.
+        replace (c_binding (ctx_of_obind o review from to)) with (ob_name o) by reflexivity.
+        rewrite Hinc. fold sf. unfold set_fresh, ctx_of_obind; proj.
+        change (@nil item) with (map norm_item []) at 1.
+        apply map_v1_ext. apply (fresh_snapshots_json _ (ob_incl o)); [exact Hcanon|exact Hm].
+Qed.
+
+(* every combined array the model produces for a well-formed hook conforms, outside the trigger
+   of F8 and unless two bindings of ONE type — or a validating and a mutating binding — share a name *)
+Lemma hook_contract_partial hc :
+  hook_wf hc = true -> T_hook hc = false -> T_same_type_name hc = false ->
+  T_admission_same_name hc = false ->
+  P_hook hc (Some (run_hook hc)) = true.
+Proof.
+  intros Hwf Ht Hts Hta. unfold P_hook, run_hook.
+  rewrite hk_update_map, render_list_v1, !map_map.
+  rewrite forall2b_map. apply forallb_forall. intros [i q] Hin.
+  destruct (hk_collect_in hc _ _ _ _ Hin) as [mid [ev [r [Hevs [Hi Hq]]]]].
+  simpl in Hi, Hq. subst i. cbn [snd].
+  now apply (hook_item_ok hc mid ev r q).
+Qed.
+
+(* ---- the witnesses of the hook cases ---- *)
+
+Module WitHook.
+Import String.
+Local Open Scope string_scope.
+
+Definition all_types : list wevent := [WAdded; WModified; WDeleted].
+
+(* kubernetes binding "pods" (includes nothing), kubernetes binding "cm" (jqFilter {data: .data},
+   keepFullObjectsInMemory: false), and a SCHEDULE binding that is also called "pods" and
+   includes the snapshot of "cm" *)
+Definition kube_pods : binding := mkBinding (bs "pods") false true all_types [] [] true.
+Definition kube_cm : binding := mkBinding (bs "cm") true false all_types [] [] true.
+
+Definition wpod (name : string) : wobj :=
+  mkWobj (bs "d") (bs name) (bs ("d/ConfigMap/" ++ name)) (Wit.cm name 1) [].
+
+Definition example_hook : hcase :=
+  mkHcase [(kube_pods, [wpod "p0"]); (kube_cm, [Wit.wcm "settings" 7])]
+          [mkObind BSchedule (bs "pods") [bs "cm"] []]
+          [HWatch (bs "pods") WAdded (wpod "p1"); HOther 0 JNull [] []].
+
+Definition schedule_item (snaps : list (bytes * json)) : json :=
+  JObj [(k_binding, JStr (bs "pods")); (k_snapshots, JObj snaps); (k_type, JStr s_Schedule)].
+
+Lemma example_hook_ok :
+  hook_wf example_hook = true /\ T_hook example_hook = false /\ T_same_type_name example_hook = false
+  /\ T_admission_same_name example_hook = false
+  /\ run_hook example_hook
+     = mkHobs [mkHitem 0 [bs "d/ConfigMap/p1"] [];
+               mkHitem 1 [] [(bs "cm", [bs "d/ConfigMap/settings"])]]
+              (Some (JArr [JObj [(k_binding, JStr (bs "pods")); (k_object, Wit.cm "p1" 1);
+                                 (k_type, JStr s_Event); (k_watchEvent, JStr s_Added)];
+                           schedule_item [(bs "cm", JArr [Wit.only_fr 7])]])).
+Proof. vm_compute. repeat split. Qed.
+
+(* the predicate is not satisfied by everything: the same array in which the Schedule item got
+   the (empty) include list of its kubernetes namesake does not conform *)
+Definition confused_obs : hobs :=
+  mkHobs [mkHitem 0 [bs "d/ConfigMap/p1"] []; mkHitem 1 [] []]
+         (Some (JArr [JObj [(k_binding, JStr (bs "pods")); (k_object, Wit.cm "p1" 1);
+                            (k_type, JStr s_Event); (k_watchEvent, JStr s_Added)];
+                      schedule_item []])).
+
+Lemma confused_obs_rejected : P_hook example_hook (Some confused_obs) = false.
+Proof. vm_compute. reflexivity. Qed.
+
+(* two SCHEDULE bindings called "tick": the second one includes the snapshot of "cm", the first
+   one nothing.  getIncludeSnapshotsFrom(Schedule, "tick") finds the first one: the context of
+   the second binding is rendered with `snapshots: {}` *)
+Definition witness_same_type_name : hcase :=
+  mkHcase [(kube_cm, [Wit.wcm "settings" 7])]
+          [mkObind BSchedule (bs "tick") [] []; mkObind BSchedule (bs "tick") [bs "cm"] []]
+          [HOther 1 JNull [] []].
+
+Lemma same_type_name_refuted :
+  hook_wf witness_same_type_name = true /\ T_hook witness_same_type_name = false
+  /\ T_same_type_name witness_same_type_name = true
+  /\ P_hook witness_same_type_name (Some (run_hook witness_same_type_name)) = false.
+Proof. vm_compute. repeat split. Qed.
+
+(* a VALIDATING and a MUTATING binding called "x": both get the webhook id "x", the mutating link
+   replaces the validating one, and the admission request for the validating webhook is rendered
+   as `type: Mutating` *)
+Definition witness_admission_same_name : hcase :=
+  mkHcase [] [mkObind BValidating (bs "x") [] []; mkObind BMutating (bs "x") [] []]
+          [HOther 0 (JObj [(bs "request", JNull)]) [] []].
+
+Lemma admission_same_name_refuted :
+  hook_wf witness_admission_same_name = true /\ T_hook witness_admission_same_name = false
+  /\ T_same_type_name witness_admission_same_name = false
+  /\ T_admission_same_name witness_admission_same_name = true
+  /\ P_hook witness_admission_same_name (Some (run_hook witness_admission_same_name)) = false.
+Proof. vm_compute. repeat split. Qed.
+End WitHook.
